@@ -10,8 +10,12 @@ theorem allChecked_fields {cfg : Cfg} (h : cfg.allChecked = true) :
     cfg.closeChecks = true ∧ cfg.procCheck = true ∧ cfg.deadlineChecks = true ∧ cfg.didResumeDetaches = true ∧
     cfg.scheduleBumps = true ∧ cfg.canceledGuard = true ∧ cfg.sleepRounds = true := by
   simp [Cfg.allChecked] at h
-  obtain ⟨⟨⟨⟨⟨⟨⟨⟨⟨⟨a, b⟩, c⟩, d⟩, e⟩, f⟩, g⟩, i⟩, j⟩, k⟩, l⟩ := h
+  obtain ⟨⟨⟨⟨⟨⟨⟨⟨⟨⟨⟨⟨a, b⟩, c⟩, d⟩, e⟩, f⟩, g⟩, i⟩, j⟩, k⟩, l⟩, _⟩, _⟩ := h
   exact ⟨a, b, c, d, e, f, g, i, j, k, l⟩
+
+theorem allChecked_hasReader {cfg : Cfg} (h : cfg.allChecked = true) : cfg.hasReaderChecks = true := by
+  simp [Cfg.allChecked] at h
+  exact h.1.2
 
 theorem TaskOk.of_eq {w w' : World} {t : Task} (h : TaskOk w t) (hf : w'.fibers = w.fibers) (hn : w'.now = w.now) : TaskOk w' t :=
   ⟨h.gen, by rw [hf]; exact h.le, by rw [hn]; exact h.nb, h.sl⟩
